@@ -175,6 +175,12 @@ func checkC05(c *Check) {
 	// configuration: exactly one securebits+capset(0) iff requested, with the NOROOT bits, failure aborting)
 	importObs(c, "C04", "C04.O1/cap-drop", "5/cannot-remount", nil)
 	c.Expect("5/cannot-remount", 12)
+	// nothing of the host leaks in beside the mount table: the new root is entered whenever one is configured, and
+	// the container init seals every descriptor it inherited
+	importObs(c, "C04", "C04.O14/child-arguments", "6/new-root-entered", func(o Obligation) bool {
+		return strings.Contains(o.Key, "pivot") || strings.Contains(o.Key, "Root") || o.Status != "ok"
+	})
+	importObs(c, "C06", "C06.4/cloexec", "7/no-inherited-descriptors", func(o Obligation) bool { return strings.HasPrefix(o.Key, "container.") })
 }
 
 // nonLoopAtoms: atoms of a guard that are not range-loop membership tests.
